@@ -8,6 +8,7 @@ import random
 
 import numpy
 
+from .distgen import disturb as distgen_disturb
 from . import common, distgen
 from .common import Violation, col
 from .distgen import q, ql, qm, goal, dy, pos
@@ -76,6 +77,7 @@ def run(tier, seed):
         xa = numpy.array(x, dtype=float).reshape(-1, 1)
         desc = f"SourceLocation{'3D' if c['three'] else '2D'}(events={c['ne']}, stations={c['ns']}, infer_velocity={c['infer']}, missing={c['pattern']}, sigma={'scalar' if c['sd_scalar'] else 'array'})"
         with numpy.errstate(all="ignore"):
+            distgen_disturb(rnd, obj, xa)
             mis = float(obj.misfit(xa.copy()))
             grad = col(obj.gradient(xa.copy()))
             fwd = numpy.asarray(obj.forward_vector(xa.copy()), dtype=float)
